@@ -19,6 +19,7 @@ import (
 	"bytes"
 	"context"
 	"encoding/json"
+	"errors"
 	"fmt"
 	"io/fs"
 	"os"
@@ -181,16 +182,42 @@ BEGIN {
   if (mode == "exit") exit 3
   if (mode == "setvars") { OFS = "-"; x = nf(5); NR = 5 }
   if (mode == "err_forin") { A[1]; for (k in A) { x = 1/zero } }
-  if (mode == "p_all") { printf "nf=%s x=[%s] OFS=[%s] NR=%d\\n", nf(3), x, OFS, NR; print "p", "q" }
-  if (mode == "p_run") printf "nf=%s NR=%d ARGC=%d\\n", nf(4), NR, ARGC
+  if (mode == "p_all") { printf "nf=%s x=[%s] OFS=[%s] NR=%d\n", nf(3), x, OFS, NR; print "p", "q" }
+  if (mode == "p_run") printf "nf=%s NR=%d ARGC=%d\n", nf(4), NR, ARGC
 }
 mode == "count" { cnt++; if (NR == stop) exit 4 }
-mode == "p_all" || mode == "p_run" { printf "rec NR=%d nf=%s\\n", NR, nf(NR) }
+mode == "p_all" || mode == "p_run" { printf "rec NR=%d nf=%s\n", NR, nf(NR) }
 `
 
-var funcsF = map[string]any{"nf": func(x float64) float64 { return 2*x + 1 }}
+var funcsF = map[string]any{
+	"nf":    func(x float64) float64 { return 2*x + 1 },
+	"nfail": func() (float64, error) { return 0, errors.New("native failure") },
+}
 
-var progSrc = map[string]string{"A": progA, "B": progB, "F": progF}
+// a fourth program made of range patterns (several, overlapping, one that never closes); it ignores `mode`:
+// the INPUT decides how a run ends -- at end of input, by exit in an action / in a function / in a pattern,
+// by a run-time error (division by zero, bad dynamic regex, error from a native function), by a cancelled
+// context inside a loop, after nextfile, with a getline stream open -- and where (which ranges are open).
+const progR = `
+function stopf() { exit 5 }
+function isstop() { if ($0 == "pexit") exit 6; return 0 }
+/<</, />>/ { printf "r1:%s\n", $0 }
+/^a/, /^c/ { printf "r2:%s\n", $0 }
+$1 == "<<", $1 == "x" { printf "r3:%s\n", $0 }
+NR == 2, 0 { printf "r4:%s\n", $0 }
+$0 == "stop" { exit }
+$0 == "fstop" { stopf() }
+isstop() { }
+$0 == "err" { x = 1/zero }
+$0 == "badre" { y = ($0 ~ "a(") }
+$0 == "nerr" { nfail() }
+$0 == "nf" { nextfile }
+$0 == "loop" { while (1) n++ }
+$0 == "getl" { getline l < aux }
+END { printf "records %d\n", NR }
+`
+
+var progSrc = map[string]string{"A": progA, "B": progB, "F": progF, "R": progR}
 
 // RunSpec is one Execute/ExecuteContext call; it is also the replay format.
 type RunSpec struct {
@@ -427,7 +454,7 @@ func execProgram0(prog *parser.Program, s RunSpec) (res outcome) {
 
 func parse(name string) *parser.Program {
 	var pcfg *parser.ParserConfig
-	if name == "F" {
+	if name == "F" || name == "R" {
 		pcfg = &parser.ParserConfig{Funcs: funcsF}
 	}
 	prog, err := parser.ParseProgram([]byte(progSrc[name]), pcfg)
@@ -637,6 +664,50 @@ func genCases(o hx.Opts, r *hx.Rand) []Case {
 			}
 		}
 	}
+	// program R: earlier runs that end in every way a run can end, at every point with ranges open
+	rEnd := []string{"", "stop", "fstop", "pexit", "err", "badre", "nerr", "nf", "loop", "getl\nstop"}
+	rOpen := []string{"<<\na\n", "<<\n", "b\na\n<<\n", "", "q\n"}
+	rSpec := func(end, open string) RunSpec {
+		hs := RunSpec{Mode: "r_" + strings.ReplaceAll(end, "\n", "+"), Input: open + end + "\n", Funcs: true}
+		if end == "" {
+			hs.Mode, hs.Input = "r_eof", open
+		}
+		if end == "loop" {
+			hs.Ctx = "cancelled"
+		}
+		return hs
+	}
+	rProbe := RunSpec{Mode: "p_range", Input: "a\nb\n<<\nc\n>>\nd\n", Funcs: true}
+	for _, end := range rEnd {
+		for _, open := range rOpen {
+			for _, full := range []bool{true, false} {
+				hs := rSpec(end, open)
+				cs = append(cs, Case{Prog: "R", History: []RunSpec{hs}, ResetVars: full, ResetRand: full, Probe: rProbe})
+				ps2 := rProbe
+				ps2.Chars, ps2.Ctx, ps2.Input = true, "bg", "x\n<<\nx\ny\n"
+				cs = append(cs, Case{Prog: "R", History: []RunSpec{hs}, ResetVars: full, ResetRand: full, Probe: ps2})
+			}
+		}
+	}
+	nR := 150
+	if o.Tier == "thorough" {
+		nR = 3000
+	}
+	for i := 0; i < nR; i++ {
+		c := Case{Prog: "R", ResetVars: r.Bool(), Probe: rProbe}
+		c.ResetRand = c.ResetVars
+		for j, k := 0, 1+r.Intn(3); j < k; j++ {
+			hs := rSpec(rEnd[r.Intn(len(rEnd))], rOpen[r.Intn(len(rOpen))])
+			if hs.Ctx == "" {
+				hs.Ctx = r.Pick([]string{"", "", "bg", "live"})
+			}
+			hs.Chars = r.Intn(3) == 0
+			c.History = append(c.History, hs)
+		}
+		c.Probe.Input = r.Pick([]string{"a\nb\n<<\nc\n>>\nd\n", "x\ny\n", "<<\nx\n", "c\n>>\n<< 1\nx 2\n", ""})
+		c.Probe.Ctx = r.Pick([]string{"", "bg", "live"})
+		cs = append(cs, c)
+	}
 	n := o.N
 	if n == 0 {
 		n = 1200
@@ -685,6 +756,9 @@ func comparable(c Case) bool {
 		if strings.Contains(a, "=") && !p.NoArgVars {
 			return false
 		}
+	}
+	if c.Prog == "R" {
+		return true // program R assigns no variable and its cases pass no Vars / var=value arguments
 	}
 	if p.Mode == "p_fmt" {
 		// depends on CONVFMT / OFMT / OFS / ORS: comparable when no earlier run touched a variable
@@ -1083,7 +1157,7 @@ var nRandomCorr = 0
 
 func corrSelected(c Case, i int, tier string) bool {
 	// not modelled: program F (the rendering of its nativeFuncs) and the os.Stdin/Stdout/Stderr defaults
-	if c.Prog == "F" {
+	if c.Prog == "F" || c.Prog == "R" {
 		return false
 	}
 	for _, s := range append(append([]RunSpec{}, c.History...), c.Probe) {
@@ -1151,7 +1225,7 @@ func setupFiles() string {
 func main() {
 	o := hx.ParseFlags()
 	rep := hx.NewReport("C14", o.Seed, o.Tier)
-	rep.Rule = "systematic: every history mode (exit, error in function / for-in / deep recursion / main rule, cancelled context in loop / function / for-in, assignments to all special variables, regex FS/RS, INPUTMODE/OUTPUTMODE, open file streams, getline, getline < \"-\" with stdin data left over, cmd | getline left open, the same printf/sprintf formats (every conversion incl. %c with width/precision/*) and dynamic regexes in the earlier run and in the probe under different Chars / output modes / CONVFMT-OFMT, a run-time error raised while assigning FS / RS / NF / ARGC / INPUTMODE / OUTPUTMODE, ExecuteContext with a live context cancelled after the run followed by a long / failing context-free probe, CSV header run, range pattern, nextfile, $0 assigned in END) x every probe (incl. p_streams: getline < \"-\" / file / rewritten output file / command again) x {full reset, no reset} on two programs, Config.OpenFile nil / os.OpenFile / deny-all differing between earlier run and probe, plus random histories of 1-4 runs with random Config (modes, header, separators, Args incl. files / var=value / missing file, Vars, Environ, sandbox flags, Chars, newline mode, Execute vs ExecuteContext, rejected configurations) and random ResetVars/ResetRand; every field of interp.Config takes at least two values incl. the nil/zero one within histories (Environ nil = process environment with a marker variable vs slice, Stdin/Output/Error nil = os.Stdin/Stdout/Stderr pointed at files, ShellCommand default vs /bin/echo, OpenFile nil/os/deny, Funcs on a third program, Args/Argv0/NoArgVars/Vars/Chars/modes/flags/newline); a run on a reused interpreter must never panic (checked also when outcomes are not comparable); distinct = distinct (program, history modes+input modes+ctx+args, resets, probe mode+input mode+ctx); non-trivial = at least one run before the probe"
+	rep.Rule = "systematic: every history mode (exit, error in function / for-in / deep recursion / main rule, cancelled context in loop / function / for-in, assignments to all special variables, regex FS/RS, INPUTMODE/OUTPUTMODE, open file streams, getline, getline < \"-\" with stdin data left over, cmd | getline left open, the same printf/sprintf formats (every conversion incl. %c with width/precision/*) and dynamic regexes in the earlier run and in the probe under different Chars / output modes / CONVFMT-OFMT, a program of overlapping range patterns whose earlier runs end at EOF / by exit in an action, a function, a pattern / by division by zero, a bad dynamic regex, a native-function error / by a cancelled context / after nextfile / with a getline stream open, each with several ranges open, a run-time error raised while assigning FS / RS / NF / ARGC / INPUTMODE / OUTPUTMODE, ExecuteContext with a live context cancelled after the run followed by a long / failing context-free probe, CSV header run, range pattern, nextfile, $0 assigned in END) x every probe (incl. p_streams: getline < \"-\" / file / rewritten output file / command again) x {full reset, no reset} on two programs, Config.OpenFile nil / os.OpenFile / deny-all differing between earlier run and probe, plus random histories of 1-4 runs with random Config (modes, header, separators, Args incl. files / var=value / missing file, Vars, Environ, sandbox flags, Chars, newline mode, Execute vs ExecuteContext, rejected configurations) and random ResetVars/ResetRand; every field of interp.Config takes at least two values incl. the nil/zero one within histories (Environ nil = process environment with a marker variable vs slice, Stdin/Output/Error nil = os.Stdin/Stdout/Stderr pointed at files, ShellCommand default vs /bin/echo, OpenFile nil/os/deny, Funcs on a third program, Args/Argv0/NoArgVars/Vars/Chars/modes/flags/newline); a run on a reused interpreter must never panic (checked also when outcomes are not comparable); distinct = distinct (program, history modes+input modes+ctx+args, resets, probe mode+input mode+ctx); non-trivial = at least one run before the probe"
 	out := o.Out
 	if out != "" && !strings.HasPrefix(out, "/") {
 		wd, _ := os.Getwd()
